@@ -16,6 +16,39 @@ def _strip(t):
     return t
 
 
+FBITS = {'float': 32, 'double': 64, 'long double': 80, '_Float16': 16, '__fp16': 16}
+
+
+def _conv(t, X, xbits):
+    """t is X under a chain of conversions: the class map of the chain.
+    'same'    - every conversion keeps the IEEE class (same format, or none at all)
+    'widened' - X was converted to a wider floating format before the test: zero, inf and nan stay
+                what they are, a subnormal of the narrow format is a NORMAL number of the wide one
+    None      - t is not X, or a conversion in the chain does not preserve the class in a way known
+                here (narrowing floating conversion, conversion through an integer)."""
+    chain = []
+    while t[0] == 'cast':
+        chain.append(t[1])
+        t = t[2]
+    if t != X:
+        return None
+    w, how = xbits, 'same'
+    for ty in reversed(chain):
+        tw = FBITS.get(ty.replace('const ', '').replace('volatile ', '').strip())
+        if tw is None or w is None:
+            return None
+        if tw < w:
+            return None
+        if tw > w:
+            how = 'widened'
+        w = tw
+    return how
+
+
+def _seen_as(cls, how):
+    return 'normal' if (how == 'widened' and cls == 'subnormal') else cls
+
+
 def _is_zero_lit(t):
     t = _strip(t)
     if t[0] == 'flt':
@@ -26,48 +59,58 @@ def _is_zero_lit(t):
     return t == ('c', 0)
 
 
-def cond_under(c, X, cls):
+def cond_under(c, X, cls, xbits=None):
     """truth of condition term c (assumed form from sym) when the float term X
-    belongs to IEEE class cls; None if c does not speak about X."""
+    (of a format xbits wide) belongs to IEEE class cls; None if c does not speak
+    about X or nothing is known.  Conversions between floating formats on the way
+    from X to the test are value conversions and are followed (_conv)."""
     if c[0] != 'cmp':
         return None
-    op, a, b = c[1], _strip(c[2]), _strip(c[3])
-    # direct comparison with zero
+    op, a, b = c[1], c[2], c[3]
+    # direct comparison with zero (a widening conversion keeps zero / non-zero)
     for x, z in ((a, b), (b, a)):
-        if x == X and _is_zero_lit(z):
+        if _conv(x, X, xbits) is not None and _is_zero_lit(z):
             if op == '==':
                 return cls == 'zero'
             if op == '!=':
                 return cls != 'zero'
             return None
     # classification predicate compared with an integer constant
+    a, b = _strip(a), _strip(b)
     for x, k in ((a, b), (b, a)):
-        if x[0] == 'call' and x[1] in PRED and len(x[2]) >= 1 and _strip(x[2][-1]) == X and k[0] == 'c':
-            val = 1 if cls in PRED[x[1]] else 0
+        if x[0] == 'call' and x[1] in PRED and len(x[2]) >= 1 and k[0] == 'c':
+            how = _conv(x[2][-1], X, xbits)
+            if how is None:
+                continue
+            val = 1 if _seen_as(cls, how) in PRED[x[1]] else 0
             if op == '==':
                 return val == k[1] if k[1] in (0, 1) else None
             if op == '!=':
                 return val != k[1] if k[1] in (0, 1) else None
             return None
-        if x[0] == 'call' and x[1] == '__builtin_fpclassify' and len(x[2]) == 6 and _strip(x[2][5]) == X and k[0] == 'c':
+        if x[0] == 'call' and x[1] == '__builtin_fpclassify' and len(x[2]) == 6 and k[0] == 'c':
+            how = _conv(x[2][5], X, xbits)
+            if how is None:
+                continue
             order = ('nan', 'inf', 'normal', 'subnormal', 'zero')
             vals = {o: x[2][i][1] for i, o in enumerate(order) if x[2][i][0] == 'c'}
-            if cls not in vals:
+            seen = _seen_as(cls, how)
+            if seen not in vals:
                 return None
             if op == '==':
-                return vals[cls] == k[1]
+                return vals[seen] == k[1]
             if op == '!=':
-                return vals[cls] != k[1]
+                return vals[seen] != k[1]
     return None
 
 
-def classes_of_path(conds, X):
+def classes_of_path(conds, X, xbits=None):
     """set of classes under which all conditions about X hold"""
     out = set()
     for cls in CLASSES:
         ok = True
         for c in conds:
-            r = cond_under(c, X, cls)
+            r = cond_under(c, X, cls, xbits)
             if r is False:
                 ok = False
                 break
